@@ -88,8 +88,11 @@ Expr == IF part = "spell" THEN Shape(rec) ELSE Group(ch)
 G == [rules |-> [start |-> Rule(Expr), R |-> Rule(Ch2(Str(<<b, a>>), B1)),
                  K |-> Class(<<Field("x", A1), LetF("m", Opt(B1)), Field("y", Cm)>>),
                  L |-> Rule(Let("q", A1, Seq2(B1, PyVar("q")))),
-                 T |-> RuleP(<<"p">>, Seq2(Ref("p"), Opt(Ref("p")))),
-                 U |-> Rule(Call("T", <<Pos(A1)>>))],
+                 \* (a parameter named like a constructor that its own body does not use: it shadows nothing elsewhere)
+                 T |-> RuleP(<<"Sep">>, Seq2(Ref("Sep"), Opt(Ref("Sep")))),
+                 U |-> Rule(Call("T", <<Pos(A1)>>)),
+                 \* ... and a later statement that uses that constructor (or its operator spelling)
+                 V |-> Rule(SepPlain(A1, Cm))],
       ign |-> <<>>, start |-> "start"]
 
 Texts == TextSeqUpTo(<<a, b, comma>>, IF Tier = "quick" THEN 4 ELSE 5)
@@ -103,7 +106,7 @@ Cfg == IF part = "spell"
 Step == /\ ~done
         /\ done' = TRUE
         /\ UNCHANGED <<part, rec, sp, ch>>
-        /\ EmitCase(G, Cfg, IF part = "spell" THEN <<"start", "K", "L", "U">> ELSE <<"start">>, Texts)
+        /\ EmitCase(G, Cfg, IF part = "spell" THEN <<"start", "K", "L", "U", "V">> ELSE <<"start">>, Texts)
 
 Next == Step
 
